@@ -338,7 +338,7 @@ func docStream(seed uint64, family string, n int, wild bool, f func(idx int, kin
 // line-ending style, an optional container and an optional missing final newline.
 var richLabels = []string{"foo", "ba\nr", "ba r", "C:\\a", "v\\2", "foo\\ ", "a  b", "Foo", "ẞ", "x\\]y", "logo", "ref"}
 var richText = []string{"a", "foo", "bar", "C:\\a", "x\\", "é", "$", "+", "~", "a$", " ", " ", ".", "!", "\\*", "1", "see"}
-var richRaw = []string{"<b>", "</b>", "<DIV>", "<XMP>", "</XMP>", "<Script>", "<a\nhref=\"x\">", "<img\nsrc=\"y.png\"\nalt=\"z\"/>", "<!-- c\nd -->", "<?p\nq?>", "<a href='>'>", "<http://example.com/>", "<a@b.cc>"}
+var richRaw = []string{"<?php\necho 1 ><script>alert(1)</script> ?>", "<![CDATA[\ny><xmp>z]]>", "<a\ntitle=\"<script>\">", "<!-- a\n><style> -->", "<!X\ny><title>>", "<b>", "</b>", "<DIV>", "<XMP>", "</XMP>", "<Script>", "<a\nhref=\"x\">", "<img\nsrc=\"y.png\"\nalt=\"z\"/>", "<!-- c\nd -->", "<?p\nq?>", "<a href='>'>", "<http://example.com/>", "<a@b.cc>"}
 var richEnt = []string{"&amp;", "&#x01F600;", "&#0128512;", "&#x10FFFD;", "&#32;", "&nbsp;", "&#1234567;", "&#x1234567;", "&copy;"}
 
 func genInline(r *Rng, depth int) string {
@@ -396,7 +396,7 @@ func genInlineRich(r *Rng, wild bool) []byte {
 		if r.Intn(6) == 0 {
 			l = strings.ToUpper(l)
 		}
-		d := "[" + l + "]: " + r.Pick([]string{"/u", "/first", "/second", "</u v>", "/a\\_b"}) + r.Pick([]string{"", "", " 't'", " \"ti\ntle\"", "\n  'x'"}) + "\n"
+		d := "[" + l + "]: " + r.Pick([]string{"/u", "/first", "/second", "</u v>", "/a\\_b"}) + r.Pick([]string{"", "", " 't'", " \"ti\ntle\"", "\n  'x'", "\n\"title\ncontinues\" junk", "\n'a\nb' c", " 'x\n'", "\n(t\nu)"}) + "\n"
 		switch r.Intn(6) {
 		case 0:
 			d = string(prefixLines([]byte(d), "> ", "> "))
@@ -421,13 +421,25 @@ func genInlineRich(r *Rng, wild bool) []byte {
 		para.WriteString(genInline(r, 3))
 	}
 	body := strings.TrimLeft(para.String(), " \n")
-	switch r.Intn(6) {
+	switch r.Intn(9) {
 	case 0:
 		body = string(prefixLines([]byte(body), "> ", "> "))
 	case 1:
 		body = string(prefixLines([]byte(body), "- ", "  "))
 	case 2:
 		body = "# " + strings.ReplaceAll(body, "\n", " ")
+	case 3:
+		if wild {
+			body = string(prefixLines([]byte(body), "- ", "\t"))
+		}
+	case 4:
+		if wild {
+			body = string(prefixLines([]byte(body), "1. ", "\t"))
+		}
+	case 5:
+		body = string(prefixLines([]byte(body), "> > > ", "> > > "))
+	case 6:
+		body = string(prefixLines([]byte(body), "- > ", "  > "))
 	}
 	sb.WriteString(body)
 	if r.Intn(3) > 0 {
